@@ -69,6 +69,9 @@ func (a c19SS) Load(k string) (int, bool) {
 	if v == nil {
 		return 0, true
 	}
+	if sl, isSlice := v.([]int); isSlice && len(sl) == 1 {
+		return sl[0], true
+	}
 	n, isInt := v.(int)
 	if !isInt {
 		return -1, true
@@ -82,12 +85,22 @@ func (a c19SS) Store(k string, v int) {
 		a.st().Store(k, nil)
 		return
 	}
+	if v%3 == 1 { // a value of a type that cannot be compared with == (a slice): storing it twice is as legal as storing it once
+		a.st().Store(k, []int{v})
+		return
+	}
 	a.st().Store(k, v)
 }
 func (a c19SS) Delete(k string) { a.st().Delete(k) }
 func (a c19SS) Len() int        { return a.st().Len() }
 func (a c19SS) Range(f func(k string, v int) bool) {
-	a.st().Range(func(k string, v any) bool { n, _ := v.(int); return f(k, n) })
+	a.st().Range(func(k string, v any) bool {
+		if sl, isSlice := v.([]int); isSlice && len(sl) == 1 {
+			return f(k, sl[0])
+		}
+		n, _ := v.(int)
+		return f(k, n)
+	})
 }
 
 // kind 0: gws.NewConcurrentMap[string,int](req) ; kind 1: default session storage of a connection
